@@ -113,7 +113,7 @@ CLAIMS = {
 
 ALL = ["C%02d" % i for i in range(1, 21)]
 # properties whose thorough command was validated (exit 0) on the unchanged tree; the others are registered quick-only
-THOROUGH_OK = ["C05", "C06", "C10", "C11", "C13", "C14", "C15", "C16", "C17"]
+THOROUGH_OK = ["C02", "C04", "C05", "C06", "C10", "C11", "C12", "C13", "C14", "C15", "C16", "C17", "C18", "C20"]
 # properties whose check is not yet reliable on the unchanged tree: reason
 PENDING = 'check built; not yet validated end-to-end on the unchanged tree in this round (will be claimed once its quick command is stable)'
 UNCLAIMED = {}
